@@ -329,14 +329,14 @@ def extra_harnesses(tier):
     h = []
     # another started pool in the same process: closing the server terminates, and stops only its own pool
     for server, pool in (("pooled+other-pool", None), ("pooled+other-pool", (1, 1)), ("simple+other-pool", None)):
-        h.append(spec(server, pool, "tcp", (("call", "notify"),), "normal") + (1,))
+        h.append(spec(server, pool, "tcp", (("call", "notify"),), "normal") + ((1 if tier == "thorough" else 0),))
         h.append(spec(server, pool, "tcp", (), "normal") + (1,))
     # many simultaneous clients of slow methods (beyond the default request pool's 30 workers), default schedule only
     for n in ((70,) if tier == "quick" else (35, 70, 130)):
         h.append(spec("pooled", None, "tcp", ((("nap",),) * n), "normal") + (0, {"F": 0}))
     h.append(spec("simple", None, "tcp", ((("nap",),) * 40), "normal") + (0, {"F": 0}))
     h.append(spec("pooled", (2, 0), "unix", ((("call", "nap"),) * 12), "normal") + (0, {"F": 0}))
-    h.append(spec("pooled", (1, 0), "tcp", ((("nap",),) * 3), "normal") + (1,))
+    h.append(spec("pooled", (1, 0), "tcp", ((("nap",),) * 3), "normal") + ((1 if tier == "thorough" else 0),))
     return h
 
 
